@@ -118,11 +118,18 @@ def run(tier):
                 rows[-1]["alloc_bytes"] = al
                 cpu = [r["info"].get("cpu_us", 0) for r in rs]
                 rows[-1]["cpu_us"] = cpu
-                if cpu[0] >= 20000 and cpu[2] / cpu[0] > CPU_RATIO_LIMIT:
-                    # timing is noisy: confirm with two more measurements, keep the minimum per size
-                    again = cm.measure_many([(e, f, k) for k in lad for _ in range(2)], timeout=900)
-                    for j, k in enumerate(lad):
-                        cpu[j] = min([cpu[j]] + [r["info"]["cpu_us"] for r in again if r.get("k") == k and "info" in r])
+                if cpu[0] >= 20000 and cpu[2] / cpu[0] > CPU_RATIO_LIMIT and sum(1 for kk in flagged if kk[0] == "cpu") < 8:
+                    # (at most 8 confirmed CPU findings are reported: each confirmation costs sequential measurements)
+                    # timing is noisy, and noise (other processes, the collector) only ever ADDS time: confirm with repeated
+                    # measurements taken ONE AT A TIME (the first pass runs 16 child processes side by side) and keep the
+                    # minimum per size; a second round only when the first still exceeds the limit.  Work that really grows
+                    # quadratically takes 16x for a 4x input in every repetition.
+                    for _round in range(2):
+                        again = cm.measure_many([(e, f, k) for k in lad for _ in range(3)], workers=1, timeout=900)
+                        for j, k in enumerate(lad):
+                            cpu[j] = min([cpu[j]] + [r["info"]["cpu_us"] for r in again if r.get("k") == k and "info" in r])
+                        if not (cpu[0] >= 20000 and cpu[2] / cpu[0] > CPU_RATIO_LIMIT):
+                            break
                     if cpu[0] >= 20000 and cpu[2] / cpu[0] > CPU_RATIO_LIMIT:
                         flagged.setdefault(("cpu", e, f), {"entry": e, "family": f, "ks": lad, "cpu_us": cpu, "ratio": round(cpu[2] / cpu[0], 2),
                                                            "what": "CPU time grows super-linearly (work inside library calls such as string search, copying or regular-expression matching is not visible to the statement counters)", "measure": "cpu"})
